@@ -9,7 +9,7 @@ import time
 from vlib import core, gen, fixture, relay
 
 PROPERTY = "C03"
-LEVEL = "fault_enumeration"
+LEVEL = "exploration"
 RULE = ("histories of 5-25 calls on one proxy (normal, raising, oneway, batch, remote attribute read, stream open/next) x fault scripts assigning to "
         "each INVOKE one of {deliver, reply lost, reply delayed past the timeout, reply cut at a byte offset then RST, RST before the server saw the "
         "request, RST after it processed it, a stale earlier reply replayed first, reply duplicated, sequence number altered} x MAX_RETRIES 0/1/2 x both "
